@@ -8,6 +8,7 @@ import (
 	"fmt"
 	"io"
 	"log"
+	gonet "net"
 	"os"
 	"path/filepath"
 	"strings"
@@ -73,6 +74,13 @@ type Case struct {
 	// capacity of a subscription the events of that subscriber are shed: its
 	// loss, nobody else's)
 	Stalled int `json:"stalled,omitempty"`
+	// NoCreds: the session is created without explicit credentials
+	// (session.NewSession); Stuck: one more service is registered whose endpoint
+	// accepts connections and never says anything, and a goroutine asks for it
+	// all along (it waits, which is its business): the requests for the other
+	// services are served meanwhile
+	NoCreds bool `json:"no_creds,omitempty"`
+	Stuck   bool `json:"stuck,omitempty"`
 }
 
 func genCase(t *rapid.T) Case {
@@ -107,6 +115,8 @@ func genCase(t *rapid.T) Case {
 	if rapid.IntRange(0, 3).Draw(t, "stalled") == 0 {
 		c.Stalled = rapid.SampledFrom([]int{50, 150, 400}).Draw(t, "nstalled")
 	}
+	c.NoCreds = rapid.IntRange(0, 2).Draw(t, "nocreds") == 0
+	c.Stuck = rapid.IntRange(0, 3).Draw(t, "stuck") == 0
 	c.BigTag = rapid.SampledFrom([]int{0, 0, 2100, 5000, 70000}).Draw(t, "bigtag")
 	c.Churn = rapid.Bool().Draw(t, "churn")
 	c.Objects = rapid.Bool().Draw(t, "objects")
@@ -202,11 +212,71 @@ func checkCase(c Case) error {
 			}
 		}
 	}
-	sess, err := session.NewAuthSession(env.Addr, "u", "t")
+	// a service behind an endpoint which accepts and stays silent
+	var stuckConns []gonet.Conn
+	var stuckMu sync.Mutex
+	releaseStuck := func() {}
+	if c.Stuck {
+		sl, err := gonet.Listen("unix", filepath.Join(dir, "stuck"))
+		if err != nil {
+			return vt.Violationf("C19:setup", "listen: %v", err)
+		}
+		go func() {
+			for {
+				conn, err := sl.Accept()
+				if err != nil {
+					return
+				}
+				stuckMu.Lock()
+				stuckConns = append(stuckConns, conn)
+				stuckMu.Unlock()
+			}
+		}()
+		var once sync.Once
+		releaseStuck = func() {
+			once.Do(func() {
+				sl.Close()
+				stuckMu.Lock()
+				for _, conn := range stuckConns {
+					conn.Close()
+				}
+				stuckMu.Unlock()
+			})
+		}
+		defer releaseStuck()
+		sd, err := services.ServiceDirectory(registrar)
+		if err != nil {
+			return vt.Violationf("C19:setup", "directory proxy: %v", err)
+		}
+		id, err := sd.RegisterService(services.ServiceInfo{Name: "Stuck", MachineId: "m", ProcessId: 1, Endpoints: []string{"unix://" + filepath.Join(dir, "stuck")}, SessionId: "s"})
+		if err == nil {
+			err = sd.ServiceReady(id)
+		}
+		if err != nil {
+			return vt.Violationf("C19:setup", "registering the silent service: %v", err)
+		}
+	}
+	var sess bus.Session
+	if c.NoCreds {
+		sess, err = session.NewSession(env.Addr)
+	} else {
+		sess, err = session.NewAuthSession(env.Addr, "u", "t")
+	}
 	if err != nil {
 		return vt.Violationf("C19:setup", "session: %v", err)
 	}
 	defer sess.Terminate()
+	stuckDone := make(chan struct{})
+	startStuck := make(chan struct{})
+	if c.Stuck {
+		go func() {
+			defer close(stuckDone)
+			<-startStuck
+			sess.Proxy("Stuck", 1) // comes back when the silent endpoint is closed
+		}()
+	} else {
+		close(stuckDone)
+	}
 	// references to the objects, obtained through another session
 	refs := map[string]object.ObjectReference{}
 	if c.Objects {
@@ -448,6 +518,10 @@ func checkCase(c Case) error {
 			}
 		}
 	}()
+	close(startStuck)
+	if c.Stuck {
+		time.Sleep(300 * time.Microsecond) // the request for the silent service is under way
+	}
 	close(start)
 	close(startStalled)
 	done := make(chan struct{})
@@ -461,6 +535,8 @@ func checkCase(c Case) error {
 		<-cancelDone
 		<-missingDone
 		<-stalledDone
+		releaseStuck()
+		<-stuckDone
 		close(done)
 	}()
 	select {
@@ -539,6 +615,12 @@ func checkCase(c Case) error {
 	}
 	if c.Stalled > 0 {
 		labels = append(labels, "a-subscriber-of-the-session-does-not-read")
+	}
+	if c.Stuck {
+		labels = append(labels, "a-request-for-a-service-behind-a-silent-endpoint-pending")
+	}
+	if c.NoCreds {
+		labels = append(labels, "session-without-explicit-credentials")
 	}
 	if c.Objects {
 		labels = append(labels, "objects-by-reference")
